@@ -4,6 +4,7 @@ from vmon.refs import p2p as P2P, txser as RT, blockser as RB, merkle as RM, pmt
 from vmon.gen import blockgen as G
 
 PROPERTY = "C16"
+PRELOAD_NETWORK_ORDERS = [["btc", "xtn", "ltc", "bch", "grs", "doge", "dash", "btg"], ["btg", "grs", "bch", "doge", "ltc", "xtn", "btc"]]
 LEVEL = "exploration"
 TECHNIQUE = "differential runtime monitor: network.message.pack/parse vs independent per-message wire encoders, boundary-biased field values"
 RULE = ("cases: (network BTC/LTC, message name, field values) for every key of STANDARD_P2P_MESSAGES enumerated at run time; values "
